@@ -87,7 +87,13 @@ def scalar_expr(ctx, depth=2, allow_none=True):
     if choice == 13:
         # the loop variable may be named like a template variable: it must
         # shadow it inside the comprehension and leave it alone outside
-        cv = d(st.sampled_from(["cx", "s0", "s1", "id", "s2"]))
+        cv = d(st.sampled_from(["cx", "s0", "s1", "id", "s2", "*seq"]))
+        if cv == "*seq":
+            # ... and like the very sequence it runs over: the first
+            # iterable belongs to the enclosing scope ([q0 for q0 in q0])
+            cv = d(st.sampled_from(ctx.seqs))
+            return ["call", "len", [["listcomp", ["var", cv], cv,
+                                     ["var", cv]]]]
         lc = ["call", "len", [["listcomp", ["var", cv], cv,
                                ["const", d(st.sampled_from(
                                    ["(1, 2)", "[]", "'abc'"]))]]]]
